@@ -32,7 +32,24 @@ func (c *Ctx) ruleToolIdentity() {
 		lookup bool
 	}
 	var calls []*envCall
+	// the reads that can reach the facts: the configuration (package config and whatever the analyzers' run
+	// functions call); an environment variable read elsewhere (say, by the reporter for colours) decides how a
+	// diagnostic looks, not which facts are written
+	relevant := map[*ssa.Function]bool{}
+	for _, a := range c.M.Analyzers {
+		if a.RunSSA != nil {
+			for _, f := range P.StaticClosure(a.RunSSA) {
+				relevant[f] = true
+			}
+		}
+	}
 	for _, fn := range P.ModFuncs {
+		if !relevant[fn] && !strings.HasSuffix(funcPkgPath(fn), "/src/config") && !(fn.Pkg != nil && fn.Pkg.Pkg.Name() == "main") {
+			continue
+		}
+		if strings.HasSuffix(funcPkgPath(fn), "/src/reporting") {
+			continue
+		}
 		allInstrs(fn, func(b *ssa.BasicBlock, ins ssa.Instruction) {
 			call, ok := ins.(*ssa.Call)
 			if !ok {
@@ -483,6 +500,10 @@ func (c *Ctx) reachedOnVersionFlag(b *ssa.BasicBlock, fn *ssa.Function, depth in
 		return false
 	}
 	guarded := P.BlockCutBy(b, func(l Lit) bool {
+		// slices.Contains(os.Args, "-V=full")
+		if call := litCall(l); call != nil && l.Pos && call.Call.StaticCallee() != nil && strings.HasPrefix(FuncName(call.Call.StaticCallee()), "slices.Contains") && len(call.Call.Args) == 2 {
+			return constString(call.Call.Args[1]) == "-V=full" && strings.Contains(P.Desc(call.Call.Args[0]), "os.Args")
+		}
 		if l.Kind != "eq" || !l.Pos || l.X == nil || l.Y == nil {
 			return false
 		}
